@@ -781,6 +781,65 @@ def check_evaluation(ctx):
            'the data array, its time points and the same measurement-name list that ordered its columns are handed to the likelihood together', '')
 
 
+def check_conditions_as_given(ctx):
+    """Trajectory n is simulated under the initial condition and the parameter condition the user gave for it: the set-up methods of
+    InferenceSetup that normalise the two arguments (one dictionary for all / one per trajectory) are evaluated (templates.StrExec) on
+    sample arguments - a condition value that equals the model's own value included - and must hand on the dictionaries unchanged."""
+    from ..templates import StrExec, UNKNOWN, EvalRaise
+    m = ctx.prog.mod('inference_setup')
+    cls = [n for n in m.tree.body if isinstance(n, ast.ClassDef) and n.name == 'InferenceSetup']
+    if not cls:
+        raise AnalysisError('anchor vanished: inference_setup:InferenceSetup')
+    meths = {x.name: x for x in cls[0].body if isinstance(x, ast.FunctionDef)}
+    model_params = {'d1': 0.5, 'k': 1.0, 'x0': 3.0}
+
+    def hook(n, ex):
+        if isinstance(n.func, ast.Attribute) and n.func.attr in ('get_parameter_dictionary', 'get_params', 'get_parameter_values') :
+            return dict(model_params)
+        if isinstance(n.func, ast.Attribute) and n.func.attr in ('get_species_dictionary',):
+            return {'A': 0.0, 'B': 5.0}
+        return None
+    for mname, attr, samples in (
+            ('prepare_parameter_conditions', 'self.parameter_conditions',
+             [('one per trajectory', [{'d1': 2.0}, {'d1': 0.5, 'x0': 3.0}, {'d1': 0.1}], 3), ('one for all', {'d1': 0.5}, 3), ('none', None, 3),
+              ('single trajectory', [{'d1': 0.5}], 1)]),
+            ('prepare_initial_conditions', 'self.initial_conditions',
+             [('one per trajectory', [{'A': 10.0}, {'A': 0.0, 'B': 5.0}, {'A': 3.0}], 3), ('one for all', {'A': 0.0}, 3), ('single trajectory', [{'B': 5.0}], 1)])):
+        f = meths.get(mname)
+        if f is None:
+            raise AnalysisError('anchor vanished: InferenceSetup.%s' % mname)
+        ctx.functions.add('inference_setup:InferenceSetup.%s' % mname)
+        problems, undecided = [], []
+        for label, given, n_traj in samples:
+            want = None if given is None else ([dict(given) for _ in range(n_traj)] if isinstance(given, dict) else [dict(d_) for d_ in given])
+            import copy
+            ex = StrExec({attr: copy.deepcopy(given), 'self.exp_data': [{'t': float(i_)} for i_ in range(n_traj)] if n_traj > 1 else [{'t': 0.0}],
+                          'self.params_to_estimate': ['k_est'], 'self.debug': False}, tracked=set(), call_hook=hook, is_sub=True)
+            ex.methods = meths
+            try:
+                ex.run(f.body)
+            except EvalRaise as e_:
+                problems.append('%s: raises %s' % (label, e_.name))
+                continue
+            except AnalysisError as e_:
+                undecided.append('%s: %s' % (label, e_))
+                continue
+            except Exception as e_:
+                if type(e_).__name__ != '_Return':
+                    raise
+            got = ex.env.get(attr, UNKNOWN)
+            if got is UNKNOWN or (isinstance(got, list) and any(x is UNKNOWN for x in got)):
+                undecided.append('%s: the stored value could not be evaluated' % label)
+            elif got != want:
+                problems.append('%s: %r becomes %r (the model holds %r)' % (label, given, got, model_params if 'parameter' in mname else {'A': 0.0, 'B': 5.0}))
+        if undecided and not problems:
+            ctx.note('R15.4 conditions-as-given: %s not evaluated (%s)' % (mname, '; '.join(undecided[:2])))
+            continue
+        ctx.ob('R15.4-trajectory-setup', 'conditions-as-given/%s' % mname, not problems, ctx.loc('inference_setup', f),
+               'every trajectory keeps the condition dictionary given for it, entry for entry (also entries equal to the model\'s current values)',
+               '; '.join(problems[:2]))
+
+
 def check(ctx):
     for m in ('inference_setup', 'pid_interfaces', 'inference', 'inference.pxd'):
         ctx.prog.mod(m)
@@ -788,6 +847,7 @@ def check(ctx):
     check_likelihood(ctx, 'DeterministicLikelihood', 'bd', False)
     check_likelihood(ctx, 'StochasticTrajectoriesLikelihood', 'sd', True)
     check_init_species(ctx)
+    check_conditions_as_given(ctx)
     check_evaluation(ctx)
     # value = log-prior + cost and -inf outside the support: the prior sum and the rejection path (C16 R16.3 / R16.4) - re-emitted here
     from ..core import SubCtx
